@@ -230,8 +230,12 @@ class SplitPart:
                 header = f.readline().rstrip("\n").split("\t")
                 sums = [0] * (len(header) - 1)
                 rows = {}
+                nrows = 0
                 for line in f:
                     p = line.rstrip("\n").split("\t")
+                    nrows += 1
+                    for h, x in enumerate(p[1:]):
+                        sums[h] += int(x)
                     rows[int(p[0])] = [int(x) for x in p[1:]]
             if len(header) - 1 != ploidy + 1:
                 ctx.violation("split:histogram-shape", "histogram header %r for ploidy %d" % (header, ploidy))
@@ -241,6 +245,10 @@ class SplitPart:
                     got = {L: v[h] for L, v in rows.items() if v[h]}
                     if got != want:
                         ctx.violation("split:histogram", "histogram column %d: %r, reads routed to the class by length: %r" % (h, got, want))
+                    elif sums[h] != sum(want.values()):
+                        # the counts of a column must add up to the reads of that class: a length listed in two rows counts twice
+                        ctx.violation("split:histogram-total", "histogram column %d adds up to %d over %d rows (%d distinct lengths), %d reads were routed to the class" % (
+                            h, sums[h], nrows, len(rows), sum(want.values())))
         dupnames = len({r["name"] for r in case["reads"]}) < len(case["reads"])
         has_none = any(e[1] == "none" for e in case["entries"])
         omitted = any(h not in outs for h in range(0, ploidy + 1))
